@@ -56,6 +56,15 @@ def insertSorted (x : Nat) : List Nat → List Nat
 
 def sortAlleles (a : List Nat) : List Nat := a.foldr insertSorted []
 
+/-- the writes of one `compound_step`: copy `order[j]` takes the allele `choices[j]`, one after the other
+    (`order` = the shuffled `arange(ploidy)`, `choices[j]` = the draw made for that copy) -/
+def compoundWrites (g : List Nat) (order choices : List Nat) : List Nat :=
+  (order.zip choices).foldl (fun a oc => a.set oc.1 oc.2) g
+
+/-- `compound_step` of the call sampler: the shuffled pass followed by `genotype_alleles.sort()` -/
+def compoundStep (g : List Nat) (order choices : List Nat) : List Nat :=
+  sortAlleles (compoundWrites g order choices)
+
 /-! ### call-exact -/
 
 /-- `llk + lpr` for every genotype in the order `increment_genotype` visits them (VCF order) -/
